@@ -109,8 +109,9 @@ def classify(sc, j, mem, red):
                     mem_v, ideal, actual, ep = None, None, None, ao.get("ep")
                 if ao.get("sup") != "none":
                     continue
-                mem_v = (o["ver"], o["vep"])
                 if o["ver"] > 0:
+                    # (since /repo a5ec69f4 the memory stream keeps its top version on an unversioned publish)
+                    mem_v = (o["ver"], o["vep"])
                     ideal, actual = (o["ver"], o["vep"]), (num(o["ver"]), o["vep"], o["ver"])
             epok = lambda st: op["vep"] == "" or op["vep"] == st[1]  # noqa: E731
             mem_s = mem_v is not None and epok(mem_v) and op["ver"] <= mem_v[0]
@@ -120,7 +121,7 @@ def classify(sc, j, mem, red):
                 if ideal_s != actual_s:
                     wraps = op["ver"] >= 2 ** 63 or (actual is not None and actual[2] >= 2 ** 63)
                     return {"kind": "version-beyond-2^53-on-redis", "how": "int-wrap" if wraps else "double-rounding"}
-                if mem_s != ideal_s and mem_v is not None and mem_v[0] == 0:
+                if mem_s != ideal_s:
                     return {"kind": "memory-unversioned-publish-resets-version", "side": "memory"}
         if lists and has_hist and op["ver"] > 0 and mk.get("sup") == "ver" and rk.get("sup") == "none":
             return {"kind": "list-storage-has-no-version-suppression", "side": "redis"}
@@ -131,6 +132,14 @@ def classify(sc, j, mem, red):
         if (has_hist and op["idem"] and mk.get("sup") == "idem" and r.startswith("err=reply:offset")
                 and any(o["k"] == "pub" and not hist(o) and o["idem"] == op["idem"] for (o, _, _) in same)):
             return {"kind": "idempotency-key-of-no-history-publish-breaks-history-publish-on-redis", "side": "redis"}
+    # a version-suppressed publish with UseDelta reads the previous publication first (historyHub.getLocked),
+    # which refreshes the meta deadline on the memory broker; the Redis script returns before EXPIRE
+    if (not lists and any(o["k"] == "pub" and o["delta"] == 1 and outkv(a).get("sup") == "ver" and (o["meta"] or hdr["meta"])
+                          for (o, a, _) in same)):
+        em = mk.get("ep") or (mk.get("pos", ":").split(":")[1])
+        er = rk.get("ep") or (rk.get("pos", ":").split(":")[1])
+        if em and er and em.isdigit() and er.isdigit() and int(er) > int(em):
+            return {"kind": "memory-suppressed-delta-publish-refreshes-meta-ttl", "side": "memory"}
     if op["k"] == "get" and "pubs" in mk and "pubs" in rk:
         mp, rp = mk["pubs"], rk["pubs"]
         pos_m, pos_r = mk.get("pos"), rk.get("pos")
